@@ -20,8 +20,13 @@
 
    Repaired behaviour modelled (fix commits in /repo): IQ decoding reads the
    lang attribute (D1); Err is serialised unless code, type, reason and text are
-   all empty, the code attribute only when non-zero (D2).
-   Modelled as the code is: SMFailed.UnmarshalXML ignores the h attribute. *)
+   all empty, the code attribute only when non-zero (D2); SMFailed.UnmarshalXML
+   reads the h attribute (d770553).
+
+   Attributes of the tree model are un-prefixed local names (XmlLex refuses a
+   prefixed name), i.e. exactly the unqualified attributes of the element: the
+   attribute loops of Message/Presence/IQ read only those (957396a; the xml:lang
+   form is outside the printed language, the encoder writes lang). *)
 From Coq Require Import List ZArith NArith Bool.
 From XV Require Import Lib.Sx Model.XmlText Model.XmlPrint Model.XmlLex.
 Import ListNotations.
@@ -428,6 +433,16 @@ Definition inner (kids : list xtree) : option str :=
   | _ => None
   end.
 
+(* the attribute loop of SMFailed.UnmarshalXML *)
+Fixpoint failed_h (a : list (str * str)) (d : option N) : option N :=
+  match a with
+  | [] => d
+  | (k, v) :: a' =>
+      failed_h a' (if str_eqb k s_h
+                   then match parse_uint 64 v with Some n => Some n | None => d end
+                   else d)
+  end.
+
 Definition dec (reg : registry) (ty : vtype) (t : xtree) : option value :=
   match ty with
   | TMessage => option_map VMessage (dec_message reg t)
@@ -489,10 +504,11 @@ Definition dec (reg : registry) (ty : vtype) (t : xtree) : option value :=
       | None => None
       end
   | TSMFailed =>
-      (* SMFailed.UnmarshalXML: no name check, attributes not read; a child element
-         is a stream-error condition (not modelled here: None) *)
+      (* SMFailed.UnmarshalXML: no name check; every unqualified h attribute that
+         ParseUint accepts is taken (the last one wins, one it rejects is ignored);
+         a child element is a stream-error condition (not modelled here: None) *)
       match t with
-      | XE _ _ _ kids => if forallb is_text kids then Some (VSMFailed None) else None
+      | XE _ _ a kids => if forallb is_text kids then Some (VSMFailed (failed_h a None)) else None
       | XT _ _ => None
       end
   | TSASLAuth =>
@@ -583,7 +599,7 @@ Definition wf_value (reg : registry) (v : value) : bool :=
   | VSMAnswer h => fits64 h
   | VSMResume pid h => all_legal pid && opt_fits64 h
   | VSMResumed pid h => all_legal pid && opt_fits64 h
-  | VSMFailed h => match h with None => true | Some _ => false end
+  | VSMFailed h => opt_fits64 h
   | VSASLAuth mech val => all_legal mech && plain val
   | VHandshake val => plain val
   end.
